@@ -372,6 +372,10 @@ func (r *Rec) KnownClass(class string) *Finding {
 	return nil
 }
 
+// HasKnown reports whether class is listed as a known (unfixed) finding: generators use it to
+// steer away from the class by construction (and count what they skipped with Excluded).
+func (r *Rec) HasKnown(class string) bool { return r.KnownClass(class) != nil }
+
 // Judge applies the known-findings filter to a verdict: it returns nil when the property held
 // or when the failure belongs to a listed known finding (counted), and the verdict otherwise.
 func (r *Rec) Judge(v *Verdict) *Verdict {
